@@ -433,9 +433,11 @@ def main():
         texts += F.f_rule_pairs(allpairs, consts=[0, 1, F.MASK], contexts=("stack",))[::3]
         texts += F.f_rule_siblings(ops, consts=(0, 1))
         texts += F.f_rule_triples(both)
+        texts += F.f_rule_existing()
         texts += F.f_exh(3)
     else:
         texts += F.f_exh(2)
+        texts += F.f_rule_existing()[::8]
         texts += F.f_rule_siblings(ops, consts=(0, 1))[::4]
         texts += F.f_rule_triples(both)[::4]
     texts = list(dict.fromkeys(texts))
